@@ -711,16 +711,20 @@ fn copy_name<'a, const N: usize>(
     dest: &mut Vec<u8, N>,
     name: impl Iterator<Item = wire::Result<&'a [u8]>>,
 ) -> Result<(), wire::Error> {
-    dest.truncate(0);
+    // Assemble the name aside: if it turns out to be malformed halfway through, the
+    // destination (the name of a query that stays pending) must be left untouched.
+    let mut copy: Vec<u8, N> = Vec::new();
 
     for label in name {
         let label = label?;
-        dest.push(label.len() as u8).map_err(|_| wire::Error)?;
-        dest.extend_from_slice(label).map_err(|_| wire::Error)?;
+        copy.push(label.len() as u8).map_err(|_| wire::Error)?;
+        copy.extend_from_slice(label).map_err(|_| wire::Error)?;
     }
 
     // Write terminator 0x00
-    dest.push(0).map_err(|_| wire::Error)?;
+    copy.push(0).map_err(|_| wire::Error)?;
+
+    *dest = copy;
 
     Ok(())
 }
